@@ -637,18 +637,19 @@ Proof.
     apply (select_holds_list tv lst e He). rewrite <- (Hcn e He). exact Hv.
 Qed.
 
-Variables (g : graph) (lvl : nat -> nat) (a : N -> bool) (s : nat -> bool) (pn : branch -> key).
-Hypothesis Hac : acyclic_by lvl g.
-Hypothesis Hs : supported g a s.
+Variables (g : graph) (s : nat -> bool) (pn : branch -> key).
+(* the branches of every node are a DNF of the node under s: holds for acyclic g and supported s
+   (eb_sound) and for any g and a (stable / least) model s (eb_equiv_model) *)
+Hypothesis Hdnf : forall fuel c bs,
+  eb g fuel [] c = Some bs -> existsb (fun mb => bval s (snd mb)) bs = lit_val s c.
 
 Lemma eb_key_sound fuel k bs :
   eb_key g fuel k = Some bs -> existsb (fun mb => pval s (snd mb)) bs = key_val s k.
 Proof.
   destruct k as [c|]; cbn [eb_key key_val]; intros H.
-  - assert (Hab : above lvl [] c) by (intros x []).
-    rewrite <- (eb_sound g lvl Hac a s Hs fuel [] c bs Hab H).
+  - rewrite <- (Hdnf fuel c bs H).
     apply existsb_ext_in. intros mb Hmb.
-    pose proof (eb_nonempty g lvl Hac fuel [] c bs Hab H mb Hmb) as Hne.
+    pose proof (eb_nonempty_gen g fuel [] c bs H mb Hmb) as Hne.
     unfold pval. destruct (snd mb); [congruence|reflexivity].
   - inversion H; subst. reflexivity.
 Qed.
